@@ -8,7 +8,7 @@ from pv.core import env
 
 ID = 'C05'
 LEVEL = 'exploration'
-TECHNIQUE = 'differential runtime monitor: real GenericCheck via Enforcer.enforce vs reference literal/path walk over generated nested credentials'
+TECHNIQUE = 'differential runtime monitor: real GenericCheck via Enforcer.enforce vs reference literal/path walk over generated nested credentials; overlapping evaluations under a deterministic line-level thread scheduler (sys.monitoring)'
 RULE = ('cases = lhs (literal: quoted string in either quote style, integer, float, True/False/None; or dotted path of '
         'depth 1-4, including spellings that look like literals such as None / True.x / 1.5) x rhs (literal text, '
         '%(key)s, mixed prefix%(key)s) x credentials from a recursive generator (dicts, lists of dicts, lists of lists, '
